@@ -196,6 +196,32 @@ fn install_draws(v: &Value) {
             })
             .unwrap_or_default()
     };
+    if let Some(seed) = v.get("weighted_seed").and_then(|x| x.as_u64()) {
+        // seeded, replayable sampling that honours the presented weights
+        verif::set_sampler(Some(Box::new(move |kind, id, pass, weights| {
+            let k = if kind == verif::Kind::Chance { 0u64 } else { 1u64 };
+            let mut x = seed
+                ^ k.wrapping_mul(0xA24B_AED4_963E_E407)
+                ^ (id as u64).wrapping_mul(0x9FB2_1C65_1E98_DF25)
+                ^ pass.wrapping_mul(0x9E37_79B9_7F4A_7C15);
+            for _ in 0..3 {
+                x ^= x >> 32;
+                x = x.wrapping_mul(0xD6E8_FEB8_6659_FD93);
+            }
+            x ^= x >> 32;
+            let u = (x >> 11) as f64 / (1u64 << 53) as f64;
+            let total: f64 = weights.iter().sum();
+            let mut acc = 0.0;
+            for (i, w) in weights.iter().enumerate() {
+                acc += w / total;
+                if u < acc {
+                    return Some(i);
+                }
+            }
+            Some(weights.len() - 1)
+        })));
+        return;
+    }
     let chance = Arc::new(tab("chance"));
     let player = Arc::new(tab("player"));
     verif::set_sampler(Some(Box::new(move |kind, id, pass, weights| {
